@@ -57,7 +57,8 @@ def folder(env, func=None):
     from ..pathcond import inline
 
     def ft(test):
-        for t in ((test,) if func is None else (test, inline(func, test))):
+        keep = [k for k in env if isinstance(k, str) and k.isidentifier()]
+        for t in ((test,) if func is None else (test, inline(func, test, keep=keep), inline(func, test))):
             try:
                 return bool(fold(t, env))
             except Exception:
@@ -79,7 +80,7 @@ def shrink_rows(f, site, newlen_name, obj, index_param):
             env[k] = 'r+'         # the guard is evaluated for a writeable handle (mode gates are C11's business)
         for k in len_keys(obj):
             env[k] = L
-        ft = folder(env)
+        ft = folder(env, f)
         normal, raised = outcome_under(f, ft)
         rows.append((nl, L, runs_under(f, site, ft), normal, raised))
     return rows
@@ -110,7 +111,7 @@ def rejects_with(rows, exc='IndexError'):
 
 def int_gate(f, sites, index_param):
     """With a non-int index no site is reached and a TypeError raise is."""
-    ft = folder(int_gate_env(index_param, False))
+    ft = folder(int_gate_env(index_param, False), f)
     reached = [s for s in sites if runs_under(f, s, ft) is not False]
     normal, raised = outcome_under(f, ft)
     return not reached and 'TypeError' in raised and normal is False
